@@ -7,7 +7,9 @@ package timebase
 
 //@ func Now
 //@   trusted
+//@   clock
 //@   ensures sane: 0 <= result.Unix() && result.Unix() <= 8589934592
+//@   ensures reading: result == lastnow()
 
 //@ func Epoch
 //@   trusted
